@@ -158,6 +158,50 @@ def run(ck):
             fails.append(("caller_receives_a_thrown_exception", dict(input=l), "handler delivered %s, thrown were %s" % (got, sorted(thrown))))
         elif vis != "visited=%d" % n or after != "after_all=1":
             fails.append(("exception_delivered_after_all_tasks_finished", dict(input=l), "%s %s with %d tasks" % (vis, after, n)))
+    # ---- 3b. refine_meshes on a list with failing cells at every position, fewer threads than cells: every healthy cell ends
+    # bit-identical to the same cell refined alone, and the caller receives the exception of a cell that fails alone
+    import contact_common as cc_
+    rimpl = vlib.build_driver("refine")
+    Rr = 5e-6; edge_ = 2 * Rr * 0.5255 / 4; rlines = []; rmeta = []
+    rng_r = random.Random(ck.seed * 1511 + 3)
+    def rm_line(kinds, th, swap):
+        cells_ = []
+        for i_, k_ in enumerate(kinds):
+            n0_, f_ = tissue.icosphere(2 if k_ != "small" else rng_r.choice([1, 2]))
+            sc_ = {"healthy": (Rr, Rr, Rr), "work": (Rr, Rr * rng_r.choice([1.8, 2.0, 2.5]), Rr), "small": (Rr * 0.15,) * 3, "flat": (Rr, Rr, Rr * 0.02)}[k_]
+            cells_.append((i_, tissue.transform(n0_, tissue.rnd_rot(rng_r), (i_ * 40 * Rr, 0, 0), sc_), f_))
+        p_ = tissue.params(dt=1e-7, damping=5e-10, T=1.0, S=1.0, lmin=edge_ * 0.6, cut_adh=1e-7, cut_rep=1e-7, swap=swap)
+        return tissue.fmt_tissue(p_, cc_.types_for([0] * len(kinds)), cells_) + " RM %s %s %d %d" % (vlib.hx(edge_ * 0.6), vlib.hx(edge_ * 1.8), swap, th)
+    for nc_ in ([4, 6] if quick else [3, 4, 5, 6, 8]):
+        for pos_ in range(nc_):
+            kinds = [rng_r.choice(["healthy", "work", "work", "flat"]) for _ in range(nc_)]; kinds[pos_] = "small"
+            if rng_r.random() < 0.3:
+                kinds[rng_r.randrange(nc_)] = "small"
+            for th in sorted({1, 2, 3, nc_}):
+                rlines.append(rm_line(kinds, th, rng_r.choice([0, 1]))); rmeta.append((kinds, th))
+    routs, rcr = vlib.run_lines_resilient([rimpl], rlines, timeout=1800)
+    nrm = 0
+    for l, (kinds, th), o in zip(rlines, rmeta, routs):
+        if o is None or not o.startswith("RM "):
+            fails.append(("exception_reaches_the_caller", dict(input=l, threads=th), "refine_meshes on %s with %d threads: the process died or timed out (%s)" % (kinds, th, (o or "")[:120]))); continue
+        nrm += 1
+        parts = [x.strip() for x in o.split("|")]
+        caller = parts[-1].split("=", 1)[1]
+        alone_exc = set(); bad = None
+        for i_, pc in enumerate(parts[1:-1]):
+            a_, b_ = pc.split(" together=")
+            ast = a_.split()[0].split("=", 1)[1]; adig = " ".join(a_.split()[1:])
+            if ast != "ok":
+                alone_exc.add(ast)
+            elif adig != b_.strip() and bad is None:
+                bad = "cell %d (%s), which refines without error alone (nodes faces digest %s), ends as %s when the list %s is refined with %d threads" % (i_, kinds[i_], adig, b_.strip(), kinds, th)
+        if bad:
+            fails.append(("per_cell_loops_touch_only_their_own_cell", dict(input=l, threads=th), bad))
+        elif (caller == "NONE") != (not alone_exc):
+            fails.append(("exception_raised_iff_a_task_threw", dict(input=l, threads=th), "refine_meshes on %s with %d threads: caller received %s, failing alone: %s" % (kinds, th, caller[:80], sorted(alone_exc))))
+        elif alone_exc and caller not in alone_exc:
+            fails.append(("caller_receives_a_thrown_exception", dict(input=l, threads=th), "refine_meshes on %s with %d threads delivered %s; the cells that fail alone throw %s" % (kinds, th, caller[:160], sorted(x[:80] for x in alone_exc))))
+    ck.notes["refine_meshes_lists_with_failing_cells"] = nrm
     # ---- 4. ThreadSanitizer as observer of the division protocol
     tsan_note = "not run"
     try:
@@ -188,7 +232,7 @@ def run(ck):
             fails.append(("population_list_never_read_while_resized", dict(input=line, threads=8, report=hits[0][:6000]), "ThreadSanitizer: cell_divider::run resizes the population list (push_back -> reallocation) inside the parallel region while another thread reads an element of it"))
     except vlib.BuildError as e:
         tsan_note = "build failed: " + str(e)[-200:]
-    ck.cov["evaluations"] = len(jobs) + neh + (4 if quick else 12) + 1
+    ck.cov["evaluations"] = len(jobs) + neh + nrm + (4 if quick else 12) + 1
     ck.cov["distinct_nontrivial"] = nmt
     ck.cov["traces_validated_against_impl"] = nmt + neh
     ck.notes["thread_sanitizer"] = tsan_note
